@@ -535,6 +535,14 @@ Proof.
     apply (rep_dec_shrinks (fun i => decode (f i)) H) in E2. inversion Hd; subst. lia.
 Qed.
 
+(* what a packing format returns is an image of its packing function *)
+Lemma decode_FMapD_inv {A B} (f : fmt A) (to : A -> B) from dom H data b r :
+  decode (FMapD f to from dom H) data = Some (b, r) -> exists a, b = to a.
+Proof.
+  cbn [decode]. destruct (decode f data) as [[a t]|]; [|discriminate].
+  intro E. inversion E. eauto.
+Qed.
+
 (* decoding what was encoded, as a whole input *)
 Theorem decode_full_encode : forall A (f : fmt A) v,
   wf f v = true -> decode_full f (encode f v) = Some v.
@@ -565,11 +573,11 @@ Qed.
 
 (* ---- allocation ---------------------------------------------------------------------- *)
 
-Lemma alloc_ok_mono c len len' a : len <= len' -> alloc_ok c len a -> alloc_ok c len' a.
-Proof. unfold alloc_ok. destruct a; lia. Qed.
+Lemma alloc_ok_mono r c len len' a : len <= len' -> alloc_ok r c len a -> alloc_ok r c len' a.
+Proof. unfold alloc_ok. destruct a, r; lia. Qed.
 
-Lemma Forall_alloc_mono c len len' l :
-  len <= len' -> Forall (alloc_ok c len) l -> Forall (alloc_ok c len') l.
+Lemma Forall_alloc_mono r c len len' l :
+  len <= len' -> Forall (alloc_ok r c len) l -> Forall (alloc_ok r c len') l.
 Proof.
   intros Hl H. eapply Forall_impl; [|exact H]. intros a Ha. eapply alloc_ok_mono; eassumption.
 Qed.
@@ -577,57 +585,57 @@ Qed.
 Lemma blen_le {A} (r a : list A) : (length r <= length a)%nat -> blen r <= blen a.
 Proof. unfold blen. lia. Qed.
 
-Lemma rep_allocs_bounded {A} (dec : nat -> parser A) (al : nat -> bytes -> list alloc_req) c :
-  (forall i a v r, dec i a = Some (v, r) -> (length r <= length a)%nat) ->
-  (forall i bs, Forall (alloc_ok c (blen bs)) (al i bs)) ->
-  forall n i bs, Forall (alloc_ok c (blen bs)) (rep_allocs dec al i n bs).
+Lemma rep_allocs_bounded {A} (dec : nat -> parser A) (al : nat -> bytes -> list alloc_req) r c :
+  (forall i a v t, dec i a = Some (v, t) -> (length t <= length a)%nat) ->
+  (forall i bs, Forall (alloc_ok r c (blen bs)) (al i bs)) ->
+  forall n i bs, Forall (alloc_ok r c (blen bs)) (rep_allocs dec al i n bs).
 Proof.
   intros Hs Ha. induction n as [|n IH]; intros i bs; [constructor|].
   cbn [rep_allocs]. apply Forall_app. split; [apply Ha|].
-  destruct (dec i bs) as [[x r]|] eqn:E; [|constructor].
+  destruct (dec i bs) as [[x t]|] eqn:E; [|constructor].
   apply Hs in E. eapply Forall_alloc_mono; [apply blen_le; exact E|apply IH].
 Qed.
 
 (* Every allocation request issued while decoding ANY input is bounded before
-   it is made: a list has at most max(c, |input|) elements — at most c when
-   its count is checked against a constant, at most the remaining input when
-   it is checked against that — and a byte copy is never longer than the input. *)
-Theorem allocs_bounded : forall A (f : fmt A) c bs,
-  capped c f -> Forall (alloc_ok c (blen bs)) (allocs f bs).
+   it is made: a list whose count is checked against a constant has at most c
+   elements, a list whose count is checked against the remaining input has at
+   most that many, and a byte copy is never longer than the input. *)
+Theorem allocs_bounded : forall A (f : fmt A) r c bs,
+  capped r c f -> Forall (alloc_ok r c (blen bs)) (allocs f bs).
 Proof.
-  induction f; intros c bs Hc; cbn [allocs capped] in *; try constructor.
+  induction f; intros r c bs Hc; cbn [allocs capped] in *; try constructor.
   - (* FBytes *)
-    destruct (p_bytes_len max bs) as [[n r]|] eqn:E; [|constructor].
+    destruct (p_bytes_len max bs) as [[n t]|] eqn:E; [|constructor].
     constructor; [|constructor]. rewrite p_bytes_len_eq in E. unfold p_bytes_len_old in E.
-    destruct (p_uvarint bs) as [[m t]|] eqn:E1; [|discriminate].
+    destruct (p_uvarint bs) as [[m t0]|] eqn:E1; [|discriminate].
     apply uvar_loop_shrinks in E1.
-    destruct ((m <=? max) && (m <=? blen t)) eqn:L; [|discriminate].
+    destruct ((m <=? max) && (m <=? blen t0)) eqn:L; [|discriminate].
     inversion E; subst. cbn. unfold blen in *. lia.
   - (* FSeq *)
     destruct Hc as [H1 H2]. apply Forall_app. split; [apply IHf1; exact H1|].
-    destruct (decode f1 bs) as [[x r]|] eqn:E; [|constructor].
+    destruct (decode f1 bs) as [[x t]|] eqn:E; [|constructor].
     apply decode_shrinks in E. eapply Forall_alloc_mono; [apply blen_le; exact E|apply IHf2; exact H2].
   - (* FBind *)
     destruct Hc as [H1 H2]. apply Forall_app. split; [apply IHf; exact H1|].
-    destruct (decode f bs) as [[x r]|] eqn:E; [|constructor].
+    destruct (decode f bs) as [[x t]|] eqn:E; [|constructor].
     apply decode_shrinks in E. eapply Forall_alloc_mono; [apply blen_le; exact E|apply H; apply H2].
-  - (* FMap *) apply IHf. exact Hc.
+  - (* FMapD *) apply IHf. exact Hc.
   - (* FGuard *) apply IHf. exact Hc.
   - (* FOpt *)
-    destruct bs as [|x r]; [constructor|]. destruct (x =? 1); [|constructor].
+    destruct bs as [|x t]; [constructor|]. destruct (x =? 1); [|constructor].
     eapply Forall_alloc_mono; [|apply IHf; exact Hc]. unfold blen. cbn [length]. lia.
   - (* FList *)
     destruct Hc as [Hmax Hel].
-    destruct (p_count ck max bs) as [[[n|] r]|] eqn:E; try constructor.
+    destruct (p_count ck max bs) as [[[n|] t]|] eqn:E; try constructor.
     + pose proof (p_count_bounded _ _ _ _ _ E) as [B1 B2].
       pose proof (p_count_shrinks _ _ _ _ _ E) as Sh. apply blen_le in Sh.
       cbn. destruct (ck_rem ck) eqn:R.
-      * specialize (B2 eq_refl). lia.
-      * specialize (B1 eq_refl). specialize (Hmax eq_refl). lia.
+      * specialize (B2 eq_refl). subst r. lia.
+      * specialize (B1 eq_refl). destruct r; lia.
     + pose proof (p_count_shrinks _ _ _ _ _ E) as Sh.
       eapply Forall_alloc_mono; [apply blen_le; exact Sh|].
       apply rep_allocs_bounded.
-      * intros i a v r0. apply decode_shrinks.
+      * intros i a v t0. apply decode_shrinks.
       * intros i bs0. apply H. apply Hel.
 Qed.
 
